@@ -64,7 +64,7 @@ def corpus(ctx, rng):
                 for nm in (side if not ctx.quick else side[-1:]):
                     jobs.append({"what": f"{'-'.join(seq)} without {nm}", "text": gen.pdb_text([gen.peptide(seq, omit={(pos, nm)})]),
                                  "args": [f"--ff={ffs[k % 6]}"]})
-    for rep in range(2 if ctx.quick else 6):
+    for rep in range(2 if ctx.quick else 25):
         for name, chains in environments(rng):
             jobs.append({"what": f"env {name}#{rep}", "text": gen.pdb_text(chains), "args": ["--ff=AMBER"]})
     for name, chains in damaged(rng):
@@ -76,13 +76,19 @@ def corpus(ctx, rng):
     jobs.append({"what": "titratable-octapeptide pH 12", "text": gen.pdb_text([gen.peptide(mix)]),
                  "args": ["--ff=AMBER", "--titration-state-method=propka", "--with-ph=12"]})
     jobs.append({"what": "neutral-termini", "text": gen.pdb_text([gen.peptide(mix)]), "args": ["--ff=PARSE", "--neutraln", "--neutralc"]})
-    for rep in range(3 if ctx.quick else 20):
+    for rep in range(3 if ctx.quick else 120):
         seq = [rng.choice(gen.AMINO) for _ in range(14)]
         heavy = gen.peptide(seq)
         side = [(a["res_index"], a["name"]) for a in heavy if a["name"] not in ("N", "CA", "C", "O", "OXT")]
         om = set(rng.sample(side, min(len(side), rng.randint(2, 4))))
         jobs.append({"what": f"{'-'.join(seq)} without {sorted(om)}", "text": gen.pdb_text([gen.peptide(seq, omit=om)]),
                      "args": [f"--ff={rng.choice(ffs)}"]})
+    # random side-chain conformations (torsions only; some of them clash and are debumped)
+    for rep in range(6 if ctx.quick else 80):
+        seq = [rng.choice(gen.AMINO) for _ in range(10)]
+        at = gen.randomize_sidechains(gen.peptide(seq), rng)
+        jobs.append({"what": f"random conformation {'-'.join(seq)}", "text": gen.pdb_text([at]),
+                     "args": [f"--ff={rng.choice(ffs)}"] + rng.choice([[], [], ["--noopt"], ["--nodebump"]])})
     # backbone gap inside one chain (no TER, numbering continues)
     full = gen.peptide(["ALA", "SER", "LYS", "GLY", "TRP", "ASP", "VAL", "LEU"])
     gap = [a for a in full if a["res_index"] not in (3, 4)]
@@ -100,7 +106,7 @@ def corpus(ctx, rng):
     for rid in resids[:(10 if ctx.quick else len(resids))]:
         cut = [ln for ln in lines if not (ln.startswith("ATOM") and (ln[21], ln[22:27]) == rid and ln[12:16].strip() not in ("N", "CA", "C", "O", "CB"))]
         jobs.append({"what": f"1AJJ side chain {rid[0]}{rid[1].strip()} cut after CB", "text": "\n".join(cut), "args": ["--ff=AMBER"]})
-    for f in (["1AJJ.pdb", "cterm_hid.pdb"] if ctx.quick else ["1AJJ.pdb", "cterm_hid.pdb", "1BX8.pdb", "5vav_cyclic_peptide.pdb", "1A1P.pdb"]):
+    for f in (["1AJJ.pdb", "cterm_hid.pdb"] if ctx.quick else sorted(os.path.basename(f) for f in __import__("glob").glob(os.path.join(DATA, "*.pdb")))):
         jobs.append({"what": f, "text": open(os.path.join(DATA, f)).read(), "args": ["--ff=AMBER"]})
     return jobs
 
@@ -258,7 +264,7 @@ def run(ctx):
     jobs = corpus(ctx, rng)
     res = core.pmap(_job, jobs, chunksize=1)
     traces = []
-    for j, o in zip(jobs, res):
+    for jn, (j, o) in enumerate(zip(jobs, res)):
         ctx.evaluations += 1
         if not o["ok"]:
             if len(ctx.drift) < 20:
@@ -267,17 +273,17 @@ def run(ctx):
         what = f"{j['what']} {' '.join(j['args'])}"
         for p in o["paths"]:
             traces.append({"id": len(traces) + 1, "kind": "paths", "cs": p["cs"], "obs": p["obs"], "name": "", "bonddev": 0, "bondallow": 0,
-                           "angledev": 0, "angleallow": 0, "attached": True, "mindist": 10 ** 9, "what": f"{what}: {p['cs']['label']}"})
+                           "angledev": 0, "angleallow": 0, "attached": True, "mindist": 10 ** 9, "what": f"{what}: {p['cs']['label']}", "job": jn})
             if p["obs"]:
                 ctx.nontrivial.add(traces[-1]["what"])
         for g in o["geo"]:
             traces.append({"id": len(traces) + 1, "kind": "geometry", "cs": DUMMY, "obs": [], "name": g["name"], "bonddev": g["bonddev"],
                            "bondallow": g["bondallow"], "angledev": g["angledev"], "angleallow": g["angleallow"], "attached": g["attached"],
-                           "mindist": g["mindist"], "what": f"{what}: {g['res']} {g['name']} ({g['note']})"})
+                           "mindist": g["mindist"], "what": f"{what}: {g['res']} {g['name']} ({g['note']})", "job": jn})
             ctx.nontrivial.add(traces[-1]["what"])
     ctx.extra.update(runs=len(jobs), path_cases=sum(1 for t in traces if t["kind"] == "paths"),
                      geometry_records=sum(1 for t in traces if t["kind"] == "geometry"))
-    tf = core.write_json(os.path.join(ctx.work, "tr.json"), [{k: v for k, v in t.items() if k != "what"} for t in traces])
+    tf = core.write_json(os.path.join(ctx.work, "tr.json"), [{k: v for k, v in t.items() if k not in ("what", "job")} for t in traces])
     cfg = os.path.join(ctx.work, "p.cfg")
     open(cfg, "w").write("SPECIFICATION TSpec\nINVARIANT Report\n")
     r = core.run_tlc("PlacementTrace", cfg, ctx.work, workers=8, env={"TRACE_FILE": tf}, timeout=3000, heap="8g")
@@ -293,11 +299,11 @@ def run(ctx):
         for b in bad:
             resname = t["what"].split(": ")[-1].split()[0]
             if t["kind"] == "paths":
-                ctx.violation({"clause": b[0], "residue": resname, "atom": b[1]}, f"{t['what']}: observed placements {t['obs']}", {"case": t["cs"], "observed": t["obs"]})
+                ctx.violation({"clause": b[0], "residue": resname, "atom": b[1]}, f"{t['what']}: observed placements {t['obs']}", {"case": t["cs"], "observed": t["obs"], "args": jobs[t["job"]]["args"], "pdb": jobs[t["job"]]["text"]})
             else:
                 ctx.violation({"clause": b[0], "residue": resname, "atom": b[1]},
                               f"{t['what']}: bond dev {t['bonddev']} (allow {t['bondallow']}) angle dev {t['angledev']} (allow {t['angleallow']}) micro-units, "
-                              f"attached={t['attached']} mindist={t['mindist']}", {"what": t["what"]})
+                              f"attached={t['attached']} mindist={t['mindist']}", {"what": t["what"], "args": jobs[t["job"]]["args"], "pdb": jobs[t["job"]]["text"]})
         if t["kind"] == "paths" and not acc:
             ndrift += 1
             if len(ctx.drift) < 25:
